@@ -26,8 +26,12 @@ M = [
  ("idle-join-sentinel", "hta/analyzers/breakdown_analysis.py", 'trace_df.loc[trace_df["index"] > 0, ["ts", "index"]],', 'trace_df[["ts", "index"]],', ["C06"]),
  ("idle-hostwait-ge", "hta/analyzers/breakdown_analysis.py", 'is_host_wait = gpu_kernels_s["ts_runtime"] > gpu_kernels_s["prev_end_ts"]', 'is_host_wait = gpu_kernels_s["ts_runtime"] >= gpu_kernels_s["prev_end_ts"]', ["C06"]),
  ("idle-thr-le", "hta/analyzers/breakdown_analysis.py", 'gpu_kernels_s["idle_interval"] < consecutive_kernel_delay', 'gpu_kernels_s["idle_interval"] <= consecutive_kernel_delay', ["C06"]),
- ("cs-open-order", "hta/common/trace_call_stack.py", '            return x[_I_DUR] > y[_I_DUR]\n', '            return x[_I_DUR] < y[_I_DUR]\n', ["C03"]),
- ("oldcs-start-order", "hta/common/call_stack.py", 'result = 1 if x.dur < y.dur else -1', 'result = -1 if x.dur < y.dur else 1', ["C03"]),
+ ("cs-key-open-order", "hta/common/trace_call_stack.py", '        return (time, 2, -dur, index)\n', '        return (time, 2, dur, index)\n', ["C03"]),
+ ("cs-key-zero-group", "hta/common/trace_call_stack.py", '            group = 0 if time in close_times else 3\n', '            group = 3\n', ["C03"]),
+ ("cs-lessthan-open-order", "hta/common/trace_call_stack.py", '            return x[_I_DUR] > y[_I_DUR]\n', '            return x[_I_DUR] < y[_I_DUR]\n', ["C03"]),
+ ("oldcs-key-start-order", "hta/common/call_stack.py", '            return (e.time, 2, -e.dur, e.idx)\n', '            return (e.time, 2, e.dur, e.idx)\n', ["C03"]),
+ ("oldcs-key-zero-group", "hta/common/call_stack.py", '                group = 0 if e.time in end_times else 3\n', '                group = 0\n', ["C03"]),
+ ("oldcs-trunc-end", "hta/common/call_stack.py", '        df["end"] = df["ts"] + df["dur"]\n', '        df["end"] = df["ts"] + df["dur"].astype(int)\n', ["C03"]),
  ("height-childless", "hta/common/trace_call_stack.py", '                    h = 1\n                    for c in node.children:', '                    h = 0\n                    for c in node.children:', ["C13"]),
  ("kernel-last-end", "hta/common/trace_call_stack.py", '                end = max(end, c_info.last_end)', '                end = max(end, c_info.first_start)', ["C13"]),
  ("bwd-guard", "hta/common/trace_call_stack.py", '                & self.full_df["end"].le(end)\n', '', ["C13"]),
